@@ -42,6 +42,14 @@ def class_key(case, complaint=""):
             feats.append("one-sided,level<=1/2")
     if pid == "C08" and complaint.startswith("tree-shape"):
         return "C08|kahan||right-deep-merge"
+    if pid == "C06" and "CDF_t(" in complaint:
+        # an isolated convergence failure of statrs' StudentsT::inverse_cdf (external crate): see known_findings.json
+        import re
+        m = re.search(r"CDF_t\(([-0-9.eE+]+);([0-9.eE+]+)\)=([0-9.]+)≠([0-9.]+)", complaint)
+        if m:
+            dof, target = float(m.group(2)), float(m.group(4))
+            if 81484.40 <= dof <= 81484.55 and min(abs(target - 0.21), abs(target - 0.79)) < 1e-3:
+                return "C06|t-quantile||statrs-pocket(dof~81484.46,p=0.21|0.79)"
     if pid == "C18" and op == "literal":
         feats = ["level-outside-(0,1)"]
         ty = ""
